@@ -210,6 +210,14 @@ class Outcome:
         self.known = []        # text lines
         self.internal = []     # my machinery is wrong
 
+def _safe(fn, *args):
+    """property oracles are written for whole generated scenarios; on the mutilated ones the shrinker and the
+    neighbourhood search produce, an oracle that cannot parse its input gives no verdict"""
+    try:
+        return fn(*args)
+    except Exception:
+        return None
+
 def compare(scn, c_res, l_res, prop):
     """returns None or (index, c_line, l_line, text)"""
     c_out, c_crash = c_res
@@ -427,12 +435,12 @@ def search(prop, runner, s, d, orc, cr, lr, tier):
         if not has_oracle:
             return False
         sc = Scenario("x", ls, s.meta)
-        m = prop.oracle(sc, o)
+        m = _safe(prop.oracle, sc, o)
         if m is None and hasattr(prop, "oracle2"):
             pre = getattr(prop, "two_pass", None)
             lo = runner.run_batch([Scenario("x", pre(sc, o) if pre else ls)], "lean", timeout=60)[0]
             if lo[1] is None:
-                m = prop.oracle2(sc, o, lo[0])
+                m = _safe(prop.oracle2, sc, o, lo[0])
         return m is not None and (want_kind is None or kind(m) == want_kind)
     want_op = s.lines[d[1]].split()[0] if (d and 0 <= d[1] < len(s.lines)) else None
     def differ(ls):
@@ -451,13 +459,13 @@ def search(prop, runner, s, d, orc, cr, lr, tier):
     if orc is not None or (cr[1] is not None and getattr(prop, "CRASH_IS_VIOLATION", True)):
         small = ddmin(lines, oracle_fails, budget)
         o, crash = impl_out(small)
-        why = prop.oracle(Scenario("x", small, s.meta), o) if (has_oracle and not crash) else None
+        why = _safe(prop.oracle, Scenario("x", small, s.meta), o) if (has_oracle and not crash) else None
         if why is None and hasattr(prop, "oracle2") and not crash:
             pre = getattr(prop, "two_pass", None)
             sc = Scenario("x", small, s.meta)
             lo = runner.run_batch([Scenario("x", pre(sc, o) if pre else small)], "lean", timeout=60)[0]
             if lo[1] is None:
-                why = prop.oracle2(sc, o, lo[0])
+                why = _safe(prop.oracle2, sc, o, lo[0])
         return True, small, why, o[-3:] if o else None, crash or ""
     # correspondence differs but the oracle is happy on this scenario: shrink the difference,
     # then try the property's own neighbourhood generators on the implementation
@@ -468,7 +476,7 @@ def search(prop, runner, s, d, orc, cr, lr, tier):
             if oracle_fails(cand.lines):
                 small2 = ddmin(cand.lines, oracle_fails, budget)
                 o, crash = impl_out(small2)
-                why = prop.oracle(Scenario("x", small2), o) if (has_oracle and not crash) else None
+                why = _safe(prop.oracle, Scenario("x", small2), o) if (has_oracle and not crash) else None
                 return True, small2, why, o[-3:] if o else None, crash or ""
     c = impl_out(small)
     pre = getattr(prop, "two_pass", None)
